@@ -80,7 +80,8 @@ func newMuxPair() (*muxPair, error) {
 }
 
 func (p *muxPair) Close() {
-	p.client.Close()
+	// bounded: Close takes the broker's mutex, which a changed library may hold for good
+	within(3*time.Second, func() { p.client.Close() })
 	for _, c := range p.conns {
 		c.Close()
 	}
